@@ -1152,6 +1152,16 @@ func (r *run) tamper(s step) {
 				}
 			}
 		}
+		switch target.val.(type) {
+		case string:
+			ev["jk"] = "string"
+		case json.Number:
+			ev["jk"] = "number"
+		case bool:
+			ev["jk"] = "bool"
+		default:
+			ev["jk"] = "absent"
+		}
 		nv, applied, changed := r.alter(ty, kind, target.val, sib, drv.Str(s["to"]))
 		ev["applied"], ev["changed"], ev["inst"] = applied, changed, pathStr(target.path)
 		if applied && target.path != nil {
